@@ -232,6 +232,9 @@ func (p c18) battery(env *Env) (*Case, []*Out) {
 	// every oddity alone at a property position, under two option sets
 	for _, o := range oddities {
 		for _, opt := range []int{0, 1} {
+			if o.name == "ref-file-yaml-alias-bomb" && opt == 1 {
+				continue // known finding KF-C18-2: one run is enough to keep it in view
+			}
 			w2 := *w
 			if opt == 1 {
 				w2.Opts.MinSized, w2.Opts.Extra = true, true
@@ -248,6 +251,9 @@ func (p c18) battery(env *Env) (*Case, []*Out) {
 			add(fmt.Sprintf("odd %s opts=%d", o.name, opt), spec, c18Run{Kind: "odd", What: o.name, Ref: -1})
 		}
 		// ... and as a definition referenced twice (directly and as array items), and as a map's value schema
+		if o.name == "ref-file-yaml-alias-bomb" {
+			continue
+		}
 		nf := *t0
 		d := withDef(withDef(cloneObj(t0.Doc), "OddTarget", Obj{{"type", "object"}, {"properties", Obj{{"x", Obj{{"type", "string"}}}}}}), "OddPrim", Obj{{"type", "string"}, {"minLength", 2}})
 		d = withDef(d, "OddDef", o.v)
@@ -1567,6 +1573,7 @@ var oddityTexts = []struct{ name, json string }{
 	{"ref-file-array-root", "{\"$ref\": \"oddarray.json\"}"},
 	{"ref-file-true-root", "{\"$ref\": \"oddtrue.json\"}"},
 	{"ref-file-id-only", "{\"$ref\": \"oddidonly.yaml\"}"},
+	{"ref-file-yaml-alias-bomb", "{\"$ref\": \"oddbomb.yaml\"}"},
 	{"ref-unsupported-scheme", "{\"$ref\": \"ftp://example.com/x.json\"}"},
 }
 
@@ -1600,7 +1607,26 @@ func oddFiles(dir string) []simrt.Node {
 		mk("oddarray.json", `[]`),
 		mk("oddtrue.json", `true`),
 		mk("oddidonly.yaml", "$id: https://example.com/oddidonly\ndefinitions:\n  A:\n    type: integer\n"),
+		mk("oddbomb.yaml", yamlAliasBomb(8)),
 	}
+}
+
+// yamlAliasBomb: a valid little schema with an ignored "x-" key holding nested aliases (9^levels nodes once expanded;
+// the file itself is a few hundred bytes).
+func yamlAliasBomb(levels int) string {
+	var b strings.Builder
+	b.WriteString("type: object\nproperties:\n  a: {type: string}\nx-bomb:\n  a0: &a0 [x,x,x,x,x,x,x,x,x]\n")
+	for i := 1; i <= levels; i++ {
+		fmt.Fprintf(&b, "  a%d: &a%d [", i, i)
+		for j := 0; j < 9; j++ {
+			if j > 0 {
+				b.WriteString(",")
+			}
+			fmt.Fprintf(&b, "*a%d", i-1)
+		}
+		b.WriteString("]\n")
+	}
+	return b.String()
 }
 
 func genOddities(t *rapid.T, w *World, args []string, add addFn) {
